@@ -268,7 +268,9 @@ func runPackets(rng *rand.Rand, n int, out *Out, _ []string) {
 			rng.Read(buf)
 		case "crafted":
 			sigdata := append([]byte{}, base[discover.VerifHeadSize:]...)
-			switch rng.Intn(5) {
+			switch rng.Intn(6) {
+			case 5:
+				sigdata = nil // correctly hashed and signed packet of exactly headSize bytes: no type byte
 			case 0:
 				sigdata[0] = byte(rng.Intn(256)) // any packet type over a valid body
 			case 1:
